@@ -1,8 +1,8 @@
 //! Model of `rust_decimal::Decimal` used by /verif (never by acb's users).
 //!
 //! A value is `mantissa * 10^-scale`. `+ - *` are exact, `/` returns the
-//! quotient truncated at `DIV_SCALE` fractional digits (rust_decimal: rounded
-//! at up to 28 significant digits), comparison is numeric, rounding is
+//! quotient rounded half-even at `DIV_SCALE` fractional digits (rust_decimal:
+//! rounded at up to 28 significant digits), comparison is numeric, rounding is
 //! rust_decimal's `MidpointAwayFromZero`. Results that leave the model range
 //! (mantissa width, scale > MAX_SCALE) are *outside the bound*: under Kani the
 //! path is cut with `kani::assume(false)`, natively it panics with
@@ -601,7 +601,12 @@ fn div_impl(a: &Decimal, b: &Decimal) -> Decimal {
     {
         let num = scale_m(am, p + b.scale);
         let den = scale_m(bm, a.scale);
-        let (q, _) = divrem(num, den);
+        let (q0, r) = divrem(num, den);
+        // round half to even at the last kept digit, like rust_decimal does at
+        // its 28th: a truncating model rounds 2/3 the other way than the real
+        // crate and produced counterexamples that did not replay natively
+        let twice = r * 2;
+        let q = if twice > den || (twice == den && q0 % 2 != 0) { q0 + 1 } else { q0 };
         let qm = if neg { -q } else { q };
         unsafe {
             // concrete counter, constant subscripts: no array theory
